@@ -1,22 +1,42 @@
 // ---------------------------------------------------------------------------
 // shim/callsites.rs -- TRUSTED.  (draft)
 // ---------------------------------------------------------------------------
-use std::collections::*;   // glob: may coexist with the explicit imports of shim/callgraph_build.rs
+// std's maps, imported through a GLOB of a module holding exactly these names: a glob import may coexist with the explicit
+// `use std::collections::{BTreeMap, HashMap}` of shim/callgraph_build.rs (same module when this unit is imported), and `pub`
+// so that the units importing this one see the names too (std's BTreeSet is deliberately not among them: `BTreeSet` is the
+// shim type of shim/callgraph.rs).
+pub mod cs_std { pub use std::collections::{BTreeMap, HashMap, HashSet}; }
+pub use cs_std::*;
 use vstd::std_specs::hash::*;
 
-/// `impl<T: ?Sized> Borrow<T> for &T { fn borrow(&self) -> &T { &**self } }` (core::borrow): looking a `HashMap<&K, V>` up
-/// with a `&K` (Q = K) finds the entry whose key equals (`==`, i.e. by VALUE of the referenced K) the looked-up key.
-/// vstd states the same for `Key = Q` (axiom_contains_deref_key) and `Key = Box<Q>` (axiom_contains_box); this is the `&Q` case.
-pub broadcast axiom fn axiom_cs_contains_ref_key<'a, V>(m: Map<&'a Tid, V>, k: &Tid)
-    ensures #[trigger] contains_borrowed_key::<&'a Tid, V, Tid>(m, k) <==> m.contains_key(k);
+/// `impl<T: ?Sized> Borrow<T> for &T { fn borrow(&self) -> &T { &**self } }` (core::borrow): looking a `HashMap<&K, V>` /
+/// `HashSet<&K>` up with a `&K` (Q = K) finds the entry whose key equals (`==`, i.e. by VALUE of the referenced K) the
+/// looked-up key.  vstd states the same for `Key = Q` (axiom_contains_deref_key, axiom_maps_deref_key_to_value,
+/// axiom_set_contains_deref_key, axiom_set_deref_key_to_value) and `Key = Box<Q>` (axiom_contains_box, ..); these four are the `&Q` case.
+pub broadcast axiom fn axiom_cs_contains_ref_key<'a, K, V>(m: Map<&'a K, V>, k: &K)
+    ensures #[trigger] contains_borrowed_key::<&'a K, V, K>(m, k) <==> m.contains_key(k);
 
-pub broadcast axiom fn axiom_cs_maps_ref_key_to_value<'a, V>(m: Map<&'a Tid, V>, k: &Tid, v: V)
-    ensures #[trigger] maps_borrowed_key_to_value::<&'a Tid, V, Tid>(m, k, v) <==> m.contains_key(k) && m[k] == v;
+pub broadcast axiom fn axiom_cs_maps_ref_key_to_value<'a, K, V>(m: Map<&'a K, V>, k: &K, v: V)
+    ensures #[trigger] maps_borrowed_key_to_value::<&'a K, V, K>(m, k, v) <==> m.contains_key(k) && m[k] == v;
+
+pub broadcast axiom fn axiom_cs_set_contains_ref_key<'a, K>(s: Set<&'a K>, k: &K)
+    ensures #[trigger] set_contains_borrowed_key::<&'a K, K>(s, k) <==> s.contains(k);
+
+pub broadcast axiom fn axiom_cs_sets_ref_key_to_key<'a, K>(s: Set<&'a K>, k: &K, key: &&'a K)
+    ensures #[trigger] sets_borrowed_key_to_key::<&'a K, K>(s, k, key) <==> s.contains(k) && **key == *k;
 
 pub broadcast group group_cs_ref_key {
     axiom_cs_contains_ref_key,
     axiom_cs_maps_ref_key_to_value,
+    axiom_cs_set_contains_ref_key,
+    axiom_cs_sets_ref_key_to_key,
 }
+
+/// A `String` is determined by its characters (vstd models `String` as an abstract type with the view `Seq<char>`; the
+/// capacity of the buffer is not observable).  Needed because vstd's key model reads `HashSet<&String>` lookups as
+/// specification equality of the keys, whereas std compares the characters.
+pub axiom fn axiom_cs_string_ext(a: String, b: String)
+    ensures a@ == b@ ==> a == b;
 
 /// std `impl<'a, 'b> PartialEq<String> for &'a str` (alloc::string, `impl_eq! { &'a str, String }`):
 /// `PartialEq::eq(&self[..], &other[..])` -- equality of the character sequences.
@@ -30,3 +50,62 @@ pub trait ExCsToString {
     type ExternalTraitSpecificationFor: ToString;
     fn to_string(&self) -> String;
 }
+
+/// `pub struct CweModule { pub name: &'static str, pub version: &'static str, pub run: CweModuleFn }` of lib.rs, RESTATED
+/// without the field `run` (Verus rejects function pointer types).  The checkers only read `name` and `version`, and
+/// neither is part of C16.
+pub struct CweModule { pub name: &'static str, pub version: &'static str }
+
+/// The text `format!("{}", tid)` produces for a Tid (`impl Display for Tid`: `write!(formatter, "{}", self.id)`): an
+/// UNINTERPRETED, deterministic function of the tid (nothing else is assumed about the text).
+pub uninterp spec fn cs_tid_fmt(t: Tid) -> Seq<char>;
+
+/// R9 target for `format!("{jmp_tid}")` / `format!("{}", sub.tid)`: vstd gives `format!` no postcondition at all; the
+/// shim adds determinism ("the text is a function of the formatted Tid").
+#[verifier::external_body]
+pub fn verif_format_tid(t: &Tid) -> (r: String)
+    ensures r@ == cs_tid_fmt(*t)
+{ unimplemented!() }
+
+/// std `impl From<&str> for String`: "Converts a `&str` into a `String`.  The result is allocated on the heap." (same characters)
+pub assume_specification<'a>[ <String as From<&'a str>>::from ](s: &str) -> (r: String)
+    ensures r@ == s@;
+
+// ---- opaque field types of `Project` / `AnalysisResults` (never read by the checkers of this unit) ---------------------------
+/// `utils::binary::RuntimeMemoryImage`: opaque.
+#[verifier::external_body]
+pub struct RuntimeMemoryImage { _p: () }
+/// `analysis::graph::Graph<'a>` (= petgraph DiGraph<Node<'a>, Edge<'a>>): opaque.
+#[verifier::external_body]
+pub struct Graph<'a> { _p: core::marker::PhantomData<&'a ()> }
+/// `analysis::function_signature::FunctionSignature`: opaque.
+#[verifier::external_body]
+pub struct FunctionSignature { _p: () }
+/// `analysis::pointer_inference::PointerInference<'a>`: opaque.
+#[verifier::external_body]
+pub struct PointerInference<'a> { _p: core::marker::PhantomData<&'a ()> }
+/// `analysis::string_abstraction::StringAbstraction<'a, T>`: opaque.
+#[verifier::external_body]
+#[verifier::reject_recursive_types(T)]
+pub struct StringAbstraction<'a, T> { _p: core::marker::PhantomData<&'a T> }
+/// `abstract_domain::BricksDomain`: opaque.
+#[verifier::external_body]
+pub struct BricksDomain { _p: () }
+
+/// `serde_json::Value` (a parsed JSON document): opaque.
+pub mod serde_json {
+    use vstd::prelude::*;
+    #[verifier::external_body]
+    pub struct Value { _p: () }
+}
+
+/// what `serde_json::from_value::<T>(v)` deserialises the JSON value `v` to (when it succeeds): an UNINTERPRETED function of `v`
+pub uninterp spec fn cs_parsed<T>(v: serde_json::Value) -> T;
+
+/// R9 target for `serde_json::from_value(PARAMS.clone()).unwrap()`: serde_json `from_value`: "Interpret a serde_json::Value as an
+/// instance of type T ... This conversion can fail"; `unwrap` panics on failure: the call DIVERGES then (read like R5,
+/// panic-freedom on a malformed configuration is not claimed); otherwise the configuration is a function of the parameters.
+#[verifier::external_body]
+pub fn verif_from_value_or_panic<T>(v: &serde_json::Value) -> (r: T)
+    ensures r == cs_parsed::<T>(*v)
+{ unimplemented!() }
